@@ -43,6 +43,10 @@ for _g in (2, 3, 5):
                     (_g, _issue, _g - 1, ";".join(["new 1 0"] * (_g + 1)), _g, ";".join(["new 1 0"] * 2)))
     DIRECTED.append("gap=%d;create;%s;pay 1:%d:stk;new 1 1;detach 1;empty;new 1 1;new 1 0;restart;new 1 0;observe" %
                     (_g, ";".join(["new 1 1"] * _g), _g - 1))
+    # two wallets in one manager: the reorganisation that removes wallet 1's payment arrives while wallet 2 is the
+    # selected one (state kept per keystore must be dropped for EVERY keystore, not for the current one: seed C12f)
+    DIRECTED.append("gap=%d;create;create;%s;pay 1:%d:std;new 1 0;new 2 0;observe;detach 1;empty;%s;observe;pay 1:%d:std;observe;%s;new 2 0;observe;instance;restore 1 m 0 0" %
+                    (_g, _issue, _g - 1, ";".join(["new 1 0"] * (_g + 1)), _g, ";".join(["new 1 0"] * 2)))
 
 
 def judge(c, mo, hist, tag, seed_note):
